@@ -61,6 +61,13 @@ func scenarios(tier string) []vlib.Scenario {
 	}
 	add(params{Interval: time.Second, Timeout: time.Second, K: 1, Mode: "silent", Traffic: true, P: 1})
 	add(params{Interval: time.Second, Timeout: time.Second, K: -1, Mode: "prompt", BPings: true, P: 1})
+	// a peer that hangs: it stops answering and stops reading, so the client's writes stall too
+	for _, c := range cfgs[:4] {
+		for k := 0; k <= 2; k++ {
+			add(params{Interval: c[0], Timeout: c[1], K: k, Mode: "hung"})
+		}
+	}
+	add(params{Interval: time.Second, Timeout: time.Second, K: 1, Mode: "hung", Traffic: true, P: 1})
 	// bursts of broker pings against a stalled client write (the ping hand-over queue holds 8)
 	for _, n := range []int{3, 12, 40} {
 		add(params{Interval: time.Second, Timeout: time.Second, K: -1, Mode: "prompt", Burst: n})
@@ -121,6 +128,9 @@ func (w *world) script() *sim.Script {
 		if w.answered < w.p.K {
 			w.answered++
 			w.silentAt = vsched.Now()
+			if w.p.Mode == "hung" && w.answered == w.p.K {
+				c.Link.HoldClientWrites = true // from now on nothing is read any more
+			}
 			return true, 0
 		}
 		if !w.faulted {
@@ -149,6 +159,11 @@ func (w *world) main() {
 	}
 	if err := w.Connect(w.script(), opts...); err != nil {
 		return
+	}
+	if w.p.Mode == "hung" && w.p.K == 0 {
+		if c := w.B.Live(); c != nil {
+			c.Link.HoldClientWrites = true // hangs right after the handshake
+		}
 	}
 	w.silentAt = vsched.Now()
 	w.Phase = "running"
@@ -244,7 +259,7 @@ func run(sc vlib.Scenario, cfg vsched.Config) (*vsched.Result, vlib.Verdict) {
 		}
 	}
 	switch w.p.Mode {
-	case "silent", "late":
+	case "silent", "late", "hung":
 		bound := w.silentAt + interval + timeout
 		if len(w.Disc) == 0 {
 			v.Fail("C15.detect", fmt.Sprintf("never/%s/dev=%v", w.p.Mode, dev), "broker %s from %v on (after %d pongs) but the client never declared the connection lost within the horizon %v", w.p.Mode, w.silentAt, w.answered, w.horizon)
